@@ -108,7 +108,8 @@ type hs13Rec struct {
 	Size  int         `json:"sz"`              // bytes on the wire
 	// cookie extension of the message this record belongs to (HelloRetryRequest: issued; ClientHello: echoed):
 	// hex, "-" = no cookie extension, "" = not applicable / message not reassembled
-	CK string `json:"ck,omitempty"`
+	CK  string `json:"ck,omitempty"`
+	GRP bool   `json:"grp,omitempty"` // HelloRetryRequest: asks for another key-share group
 }
 
 type hs13Event struct {
@@ -242,6 +243,9 @@ func (c *hs13Classifier) hsRec(side string, epoch int, seq uint64, content []byt
 					for _, e := range sh.Extensions {
 						if ck, ok := e.(*extension13.Cookie); ok {
 							out.CK = vHex(ck.Cookie)
+						}
+						if _, ok := e.(*extension13.RetryKeyShare); ok {
+							out.GRP = true
 						}
 					}
 					if side == "server" {
